@@ -1,6 +1,9 @@
 (* C05: executable adapters and decidable specifications evaluated by the correspondence (harness/props/c05.py).
    `*_model` runs the model of Regions.v on an input printed by the harness, `*_prop` is the property's decidable
-   specification evaluated on the IMPLEMENTATION's output. *)
+   specification evaluated on the IMPLEMENTATION's output.
+   The unsuffixed names are for the code after fixes/C05_first_subregion_start.diff (first sub-region starts at
+   genomic_region[0]); `*_prev` are for the code before it (model split_regions_prev / forward_prev, specification with the
+   one-base-on-a-bin-boundary exemption).  harness/props/c05.py detects which variant is checked out. *)
 From Coq Require Import ZArith List Bool Lia ZifyBool.
 From IQ Require Import CorrSupport Regions.
 From IQ.gen Require Import Prims Tables.
@@ -27,17 +30,25 @@ Definition split_model (c:split_in) : outcome (list iv) :=
 Definition split_model_cur (c:split_in) : outcome (list iv) :=
   let '(k, r, cnt, d) := c in let '(B, ML, MR, AV, RN, RD) := k in
   match split_regions_cur B ML MR AV RN RD r cnt (lookup d) (kmin d) (kmax d) with Some l => Ok l | None => Raises 9 end.
+Definition split_model_prev (c:split_in) : outcome (list iv) :=
+  let '(k, r, cnt, d) := c in let '(B, ML, MR, AV, RN, RD) := k in
+  match split_regions_prev B ML MR AV RN RD r cnt (lookup d) (kmin d) (kmax d) with Some l => Ok l | None => Raises 9 end.
 Definition split_check (c:split_in * outcome (list iv)) : bool := outcome_eqb regs_eqb (split_model (fst c)) (snd c).
+Definition split_check_prev (c:split_in * outcome (list iv)) : bool := outcome_eqb regs_eqb (split_model_prev (fst c)) (snd c).
 
 Fixpoint chainb (lo hi:Z) (regs:list iv) : bool :=
   match regs with [] => lo =? hi + 1 | r :: t => (fst r =? lo) && (fst r <=? snd r) && (snd r <=? hi) && chainb (snd r + 1) hi t end.
 Lemma chainb_iff : forall regs lo hi, chainb lo hi regs = true <-> chain lo hi regs.
 Proof. induction regs as [|r t IH]; intros lo hi; cbn [chainb chain]; [lia|]. rewrite !andb_true_iff, IH, Z.eqb_eq, !Z.leb_le. tauto. Qed.
-(* split_regions_tile, decidable: the whole region, or consecutive non-empty sub-regions from max(bin start + 1, r0) to r1 *)
-Definition tile_ok (B:Z) (r:iv) (regs:list iv) : bool :=
-  regs_eqb regs [r] || chainb (Z.max (fst r / B * B + 1) (fst r)) (snd r) regs.
+(* split_regions_tile, decidable: consecutive non-empty sub-regions from r0 to r1 (the whole region is such a chain) *)
+Definition tile_ok (r:iv) (regs:list iv) : bool := chainb (fst r) (snd r) regs.
 Definition split_prop (c:split_in * outcome (list iv)) : bool :=
-  let '(k, r, _, _) := fst c in match snd c with Ok regs => tile_ok (cBIN k) r regs | Raises _ => false end.
+  let '(k, r, _, _) := fst c in match snd c with Ok regs => tile_ok r regs | Raises _ => false end.
+(* split_regions_tile_prev, decidable: the whole region, or consecutive non-empty sub-regions from max(bin start + 1, r0) to r1 *)
+Definition tile_ok_prev (B:Z) (r:iv) (regs:list iv) : bool :=
+  regs_eqb regs [r] || chainb (Z.max (fst r / B * B + 1) (fst r)) (snd r) regs.
+Definition split_prop_prev (c:split_in * outcome (list iv)) : bool :=
+  let '(k, r, _, _) := fst c in match snd c with Ok regs => tile_ok_prev (cBIN k) r regs | Raises _ => false end.
 
 (* ---------------------------------------------------------------- process(): clustering + forward_alignments + statistics *)
 Definition ids (l:list aln) : list Z := map (fun a => snd a) l.
@@ -58,26 +69,35 @@ Definition proc_model (c:proc_in) : outcome pout * (Z*Z*Z) :=
 Definition proc_model_cur (c:proc_in) : outcome pout * (Z*Z*Z) :=
   let '(k, hm, file, recs) := c in let '(B, ML, MR, AV, RN, RD) := k in
   (run_clusters (forward_cur B ML MR AV RN RD (if hm then HighMem else Default) file) (process file), stats recs).
+Definition proc_model_prev (c:proc_in) : outcome pout * (Z*Z*Z) :=
+  let '(k, hm, file, recs) := c in let '(B, ML, MR, AV, RN, RD) := k in
+  (run_clusters (forward_prev B ML MR AV RN RD (if hm then HighMem else Default) file) (process file), stats recs).
 Definition pout_eqb := list_eqb (pair_eqb iv_eqb zs_eqb).
 Definition stat_eqb (a b:Z*Z*Z) : bool := let '(a1, a2, a3) := a in let '(b1, b2, b3) := b in (a1 =? b1) && (a2 =? b2) && (a3 =? b3).
 Definition proc_check (c:proc_in * (outcome pout * (Z*Z*Z))) : bool :=
   let m := proc_model (fst c) in outcome_eqb pout_eqb (fst m) (fst (snd c)) && stat_eqb (snd m) (snd (snd c)).
+Definition proc_check_prev (c:proc_in * (outcome pout * (Z*Z*Z))) : bool :=
+  let m := proc_model_prev (fst c) in outcome_eqb pout_eqb (fst m) (fst (snd c)) && stat_eqb (snd m) (snd (snd c)).
 
 Fixpoint increasing (prev:Z) (regs:list iv) : bool :=
   match regs with [] => true | r :: t => (prev <? fst r) && (fst r <=? snd r) && increasing (snd r) t end.
 Definition one_base_on_boundary (B:Z) (a:aln) : bool := (rs a mod B =? 0) && (re a =? rs a + 1).
 (* on the implementation's output: every region gets exactly the records that overlap it, in file order; regions ascend
-   without overlap; every record (except the one-base corner) is handed out at least once; statistics = category counts *)
-Definition proc_prop (c:proc_in * (outcome pout * (Z*Z*Z))) : bool :=
+   without overlap; every record (`exempt`: except ...) is handed out at least once; statistics = category counts *)
+Definition proc_prop_with (exempt:Z -> aln -> bool) (c:proc_in * (outcome pout * (Z*Z*Z))) : bool :=
   let '(k, hm, file, recs) := fst c in
   match fst (snd c) with
   | Raises _ => false
   | Ok out =>
       forallb (fun e => zs_eqb (ids (filter (fun a => py_overlaps (fst e) (span a)) file)) (snd e)) out
       && increasing (-1) (map fst out)
-      && forallb (fun a => one_base_on_boundary (cBIN k) a || existsb (fun e => existsb (Z.eqb (snd a)) (snd e)) out) file
+      && forallb (fun a => exempt (cBIN k) a || existsb (fun e => existsb (Z.eqb (snd a)) (snd e)) out) file
       && stat_eqb (snd (snd c)) (count cat_primary recs, count cat_secondary recs, count cat_supplementary recs)
   end.
+(* repaired code: EVERY record is handed out at least once *)
+Definition proc_prop := proc_prop_with (fun _ _ => false).
+(* before fixes/C05_first_subregion_start.diff: except the one-base corner *)
+Definition proc_prop_prev := proc_prop_with one_base_on_boundary.
 
 (* ---------------------------------------------------------------- in-memory index after fill_index *)
 (* case: (BIN, stored records) -> (alignment_start_index items, alignment_end_index items) sorted by bin *)
